@@ -491,6 +491,10 @@ def gen_history(rng, reqs, h):
             ["eval", "sphere/sasview3b"], ["eval", "sphere/Fq"], ["eval", "sphere/Fq0"],
             ["eval", "cylinder/Fq3pd"], ["eval", "cylinder/Fq0pd"], ["eval", "cylinder/Fq1"], ["eval", "cylinder/Fq0"],
             ["eval", "hc/Fq2"], ["eval", "hc/Fq0"], ["eval", "py/Fq1"], ["eval", "py/Fq"]]
+    # a request, an empty-mesh request, and the first request again on one kernel object (python and compiled)
+    ops += [["eval", "py/pd"], ["eval", "py/empty"], ["eval", "py/pd"], ["eval", "py/mono"], ["eval", "py/empty"],
+            ["eval", "py/mono"], ["eval", "sphere/pd35"], ["eval", "sphere/empty"], ["eval", "sphere/pd35"],
+            ["eval", "cplug/pd"], ["eval", "cplug/empty"], ["eval", "cplug/pd"]]
     # two plugin files with the same base name (same model id) and different formulas, through both interfaces;
     # empirical distributions whose arrays belong to the caller, evaluated repeatedly
     ops += [["eval", "py/sasview"], ["eval", "py2/sasview"], ["eval", "py/sasview"], ["eval", "py2/mono"], ["eval", "py/mono"],
